@@ -4,6 +4,7 @@ package verifharness
 
 import (
 	"fmt"
+	"math/big"
 	"strings"
 	"sync"
 	"testing"
@@ -286,9 +287,124 @@ func TestC04(t *testing.T) {
 	}
 }
 
+// subChunkPrims: the exported read-modify-write primitives on a 32-byte chunk must return a new
+// chunk and leave the one they were given untouched (C05: "sub-chunk updates copy the chunk first").
+func subChunkPrims(out *caseOut) {
+	r := newRng(55)
+	basicOf := func(w uint64, n uint64) view.BasicView {
+		switch w {
+		case 1:
+			return view.Uint8View(n)
+		case 2:
+			return view.Uint16View(n)
+		case 4:
+			return view.Uint32View(n)
+		}
+		return view.Uint64View(n)
+	}
+	for k := 0; k < 400; k++ {
+		var c tree.Root
+		r.Read(c[:])
+		if k%7 == 0 {
+			c = tree.Root{}
+		}
+		before := c
+		same := func() string {
+			if c == before {
+				return "same"
+			}
+			c = before
+			return "CHANGED"
+		}
+		idx := uint8(r.Intn(40))
+		if k%5 == 0 {
+			idx = uint8(r.Intn(256))
+		}
+		for _, w := range []uint64{1, 2, 4, 8} {
+			n := r.Uint64() & (1<<(8*w) - 1)
+			if w == 8 {
+				n = r.Uint64()
+			}
+			ww, i := w, idx
+			out.emit("prim", "bfb", []string{hx(w), hexBytes(before[:]), hx(uint64(i)), hx(n)}, guard(func() string {
+				nr := basicOf(ww, n).BackingFromBase(&c, i)
+				if nr == nil {
+					return "new=NIL base=" + same()
+				}
+				return "new=" + hexBytes(nr[:]) + " base=" + same()
+			}))
+			out.emit("prim", "bvb", []string{hx(w), hexBytes(before[:]), hx(uint64(i))}, guard(func() string {
+				v, err := view.UintMeta(ww).BasicViewFromBacking(&c, i)
+				if err != nil {
+					return "ERR"
+				}
+				s, _ := readBasic(nil, v)
+				return "OK " + strings.TrimSuffix(strings.TrimPrefix(s, "(n "), ")")
+			}))
+		}
+		{
+			// uint256: one per chunk
+			var le [32]byte
+			r.Read(le[:])
+			var u view.Uint256View
+			u.SetBytes32(le)
+			be := make([]byte, 32)
+			for j := 0; j < 32; j++ {
+				be[j] = le[31-j]
+			}
+			i := idx % 3
+			out.emit("prim", "bfb", []string{"20", hexBytes(before[:]), hx(uint64(i)), new(big.Int).SetBytes(be).Text(16)}, guard(func() string {
+				nr := u.BackingFromBase(&c, i)
+				if nr == nil {
+					return "new=NIL base=" + same()
+				}
+				return "new=" + hexBytes(nr[:]) + " base=" + same()
+			}))
+		}
+		b := r.Intn(2) == 1
+		bi := uint8(r.Intn(256))
+		out.emit("prim", "bitb", []string{hexBytes(before[:]), hx(uint64(bi)), b01(b)}, guard(func() string {
+			nr := view.BoolView(b).BackingFromBitfieldBase(&c, bi)
+			if nr == nil {
+				return "new=NIL base=" + same()
+			}
+			return "new=" + hexBytes(nr[:]) + " base=" + same()
+		}))
+		out.emit("prim", "bitg", []string{hexBytes(before[:]), hx(uint64(bi))}, guard(func() string {
+			v, err := view.BoolType.BoolViewFromBitfieldBacking(&c, bi)
+			if err != nil {
+				return "ERR"
+			}
+			return b01(bool(v))
+		}))
+		out.emit("prim", "boolb", []string{hexBytes(before[:]), hx(uint64(idx)), b01(b)}, guard(func() string {
+			nr := view.BoolView(b).BackingFromBase(&c, idx)
+			if nr == nil {
+				return "new=NIL base=" + same()
+			}
+			return "new=" + hexBytes(nr[:]) + " base=" + same()
+		}))
+		// chunks of 0/1 bytes (and the random one) for the byte-per-bool reader
+		bc := before
+		if k%2 == 0 {
+			for j := range bc {
+				bc[j] &= 1
+			}
+		}
+		out.emit("prim", "boolg", []string{hexBytes(bc[:]), hx(uint64(idx))}, guard(func() string {
+			v := view.BoolType.SubViewFromBacking(&bc, idx)
+			if v == nil {
+				return "NIL"
+			}
+			return "OK " + b01(bool(v.(view.BoolView)))
+		}))
+	}
+}
+
 func TestC05(t *testing.T) {
 	out := openOut(t, "C05")
 	defer out.close()
+	subChunkPrims(out)
 	n, ml := 120, 2
 	if thorough() {
 		n, ml = 3000, 3
